@@ -1,5 +1,5 @@
 #!/bin/bash
-# run_driver.sh <C19|C20> <quick|thorough>: builds the overlay test binary of the
+# run_driver.sh <C19|C20> <quick|thorough|build>: builds the overlay test binary of the
 # package-main command against /repo's working tree and runs the driver shards.
 cd "$(dirname "$0")/.." || exit 2
 export GOFLAGS=-mod=mod GOPROXY=off GOSUMDB=off GOTOOLCHAIN=local
@@ -18,4 +18,5 @@ EOT
 { cat "$REPO/go.mod"; echo; echo "require verif/sim v0.0.0"; echo "replace verif/sim => $VERIF_DIR/sim"; } > bin/repo.alt.mod
 cp "$REPO/go.sum" bin/repo.alt.sum
 (cd "$REPO" && go test -c -vet=off -tags verif -overlay "$VERIF_DIR/bin/overlay_$prop.json" -modfile "$VERIF_DIR/bin/repo.alt.mod" -o "$VERIF_DIR/bin/$bin" ./$pkg) || { echo "HARNESS-TROUBLE: driver build failed"; exit 2; }
+[ "$tier" = "build" ] && exit 0
 exec ./bin/simcheck driver "$prop" "$tier" "$VERIF_DIR/bin/$bin"
